@@ -59,6 +59,7 @@ type vScenario struct {
 	Rounds  int                  `json:"rounds"`
 	Cfg     map[string]any       `json:"cfg,omitempty"`
 	Prio    map[string]int64     `json:"prio,omitempty"`
+	Extra   any                  `json:"extra,omitempty"` // driver-specific plan (kept for attribution / replay)
 }
 
 func (sc *vScenario) json() string {
